@@ -226,14 +226,17 @@ class Gen:
             if k < 0.40:
                 fields.append(('scalar', fn, r.choice(NAMES)))
             elif k < 0.68:
-                base = r.choice(['int', 'uint', 'uint', 'bool'])
+                base = r.choice(['int', 'uint', 'uint', 'bool', 'long', 'ulong', 'ullong'])
                 prev = [f for f in fields if f[0] in ('bf', 'bf0')]
-                if 'mixed-unit-bitfields' in self.avoid and prev and (prev[0][2] == 'bool') != (base == 'bool'):
+                if 'mixed-unit-bitfields' in self.avoid and prev and T[prev[0][2]][1] != T[base][1]:
                     base = prev[0][2]     # all bit-fields of one struct in storage units of one size
-                w = 1 if base == 'bool' else r.choice([1, 2, 3, 5, 7, 8, 9, 13, 16, 17, 24, 31, 32])
+                w = 1 if base == 'bool' else r.choice([1, 2, 3, 5, 7, 8, 9, 13, 16, 17, 24, 31, 32]
+                                                      + ([33, 40, 48, 63, 64] if T[base][1] == 64 else []))
                 fields.append(('bf', fn, base, w))
                 if r.random() < 0.12:
                     fields.append(('bf0', '', base, 0))
+            elif k < 0.76:
+                fields.append(('arr', fn, 'char', r.randint(2, 7), 'str'))     # char array: string-literal initialisers
             elif k < 0.84:
                 fields.append(('arr', fn, r.choice(NAMES), r.randint(2, 5)))
             elif self.structs and k < 0.95:
@@ -283,10 +286,47 @@ class Gen:
         u = r.choice(UNS3)
         return '(%s %s %s)' % (self.cast(u, self.literal()[0]), r.choice(['+', '-', '*', '^']), self.cast(u, self.literal()[0]))
 
+    STRINGS = ['', 'a', 'xy', 'abc', 'Hel', 'q\\tz', 'w\\x41', 'hello', 'seven77']
+
+    def string_for(self, n):
+        """a string literal that fits char[n] (possibly without room for the terminating NUL, 6.7.9p14)"""
+        def clen(t):
+            return len(t.replace('\\t', 't').replace('\\x41', 'A'))
+        fit = [t for t in self.STRINGS if clen(t) <= n]
+        self.features.add('init-string-member')
+        return '"%s"' % self.r.choice(fit)
+
+    def elided_items(self, si, budget):
+        """initialisers for the leaves of struct si in declaration order WITHOUT inner braces (brace elision,
+        6.7.9p20); a char array may be given by one string literal.  Stops after [budget] items."""
+        r = self.r
+        items = []
+        for f in self.structs[si][1]:
+            if len(items) >= budget[0]:
+                break
+            if f[0] in ('scalar', 'bf'):
+                items.append(self.const_val(f[2]))
+            elif f[0] == 'arr':
+                if len(f) > 4 and r.random() < 0.6:
+                    items.append(self.string_for(f[3]))
+                else:
+                    for _ in range(f[3]):
+                        if len(items) < budget[0]:
+                            items.append(self.const_val(f[2]))
+            elif f[0] == 'struct':
+                sub = [budget[0] - len(items)]
+                items += self.elided_items(f[2], sub)
+        return items
+
     def struct_init(self, si, depth=0):
-        """brace initialiser for struct si: positional, designated, partial, nested"""
+        """brace initialiser for struct si: positional, designated, partial, nested, brace-elided"""
         r = self.r
         fields = [f for f in self.structs[si][1] if f[0] != 'bf0']
+        style = r.random()
+        if style < 0.15:
+            self.features.add('init-brace-elision')
+            items = self.elided_items(si, [r.randint(1, 12)])
+            return '{ %s }' % ', '.join(items) if items else '{ 0 }'
         style = r.random()
         items = []
         chosen = fields if style < 0.4 else [f for f in fields if r.random() < 0.7]
@@ -299,7 +339,9 @@ class Gen:
             if f[0] in ('scalar', 'bf'):
                 v = self.const_val(f[2])
             elif f[0] == 'arr':
-                if designated and r.random() < 0.4:
+                if len(f) > 4 and r.random() < 0.6:
+                    v = self.string_for(f[3]) if r.random() < 0.8 else '{ %s }' % self.string_for(f[3])
+                elif designated and r.random() < 0.4:
                     idx = r.randrange(f[3])
                     v = '{ [%d] = %s }' % (idx, self.const_val(f[2]))
                     self.features.add('init-array-designator')
@@ -522,6 +564,26 @@ class Gen:
         for i in range(an):
             gatoms.append(('ga[%d]' % i, at))
             gwrit.append(('ga[%d]' % i, at, 0))
+        if r.random() < 0.5:
+            # rows of a 2-D char array given by string literals / elided lists; the row count may come from the initialiser
+            k = r.randint(3, 7)
+            rows = r.randint(1, 4)
+            vals = []
+            for _ in range(rows):
+                vals.append(self.string_for(k) if r.random() < 0.75 else '{ %s }' % ', '.join(self.const_val('char') for _ in range(r.randint(1, k))))
+            tail = ''
+            if r.random() < 0.3:
+                tail = ", '%s'" % r.choice('xyz')          # brace elision: starts the next row
+                rows += 1
+            dim = '' if r.random() < 0.5 else str(rows + r.choice([0, 0, 1]))
+            nrows = int(dim) if dim else rows
+            L.append('%schar gn[%s][%d] = { %s%s };' % (r.choice(['', 'static ']), dim, k, ', '.join(vals), tail))
+            L.append('static const int gn_rows = (int) (sizeof (gn) / sizeof (gn[0]));')
+            gatoms.append(('gn_rows', 'int'))
+            for i in range(nrows):
+                for j2 in range(k):
+                    gatoms.append(('gn[%d][%d]' % (i, j2), 'char'))
+            self.features.add('init-string-rows')
         if r.random() < 0.5:
             L.append('char gstr[%d] = "%s";' % (8, r.choice(['abc', 'x\\ty', '', 'Hello!', '\\101\\x42'])))
             gatoms.append(('gstr[%d]' % r.randrange(8), 'char'))
